@@ -137,11 +137,15 @@ pub fn spec() -> CheckSpec {
     for g in ["guarded", "single_committer", "no_publish_failure"] {
         guards.insert(g.to_string());
     }
-    let base = Profile { backend: BackendMix::Sqlite, allow_restart: true, msg_heavy: true, steps_lo: 25, steps_hi: 60, ..Default::default() };
+    // every step on a fresh thread: the twin differs in earlier steps (see seam::step_isolated)
+    let mut iso = BTreeSet::new();
+    iso.insert("isolate_steps".to_string());
+    guards.insert("isolate_steps".to_string());
+    let base = Profile { backend: BackendMix::Sqlite, allow_restart: true, msg_heavy: true, steps_lo: 25, steps_hi: 60, guards: iso, ..Default::default() };
     CheckSpec {
         id: "C11",
         level: "exploration",
-        rule: "C01/C02 worlds on SQLite/SQLCipher nodes with clean restarts (drop MDK + storage, reopen the file) at seeded positions between API calls, biased by weight; each run is executed twice from the same seed, with and without the restart steps, and every later API result and per-step fingerprint must be identical (per-step reseeding makes ids, keys and timestamps equal); non-trivial = a restart followed by a rollback, a late competing commit or the merge of a commit created before the restart; distinct = delivery signature",
+        rule: "C01/C02 worlds on SQLite/SQLCipher nodes with clean restarts (drop MDK + storage, reopen the file) at seeded positions between API calls, biased by weight; each run is executed twice from the same seed, with and without the restart steps, and every later API result and per-step fingerprint must be identical (per-step reseeding makes ids, keys and timestamps equal, and every step runs on a fresh thread so that hash-map iteration orders are a function of the step, not of the steps before it); non-trivial = a restart followed by a rollback, a late competing commit or the merge of a commit created before the restart; distinct = delivery signature",
         variants: vec![
             Variant { name: "sqlite", profile: Profile { ..base.clone() }, runs_quick: 150, runs_thorough: 8000, oracle: mk, guarded: false, configure_gen: Some(more_restarts), post: Some(post), custom: None },
             Variant { name: "sqlcipher", profile: Profile { backend: BackendMix::SqliteCipher, ..base.clone() }, runs_quick: 60, runs_thorough: 3000, oracle: mk, guarded: false, configure_gen: Some(more_restarts), post: Some(post), custom: None },
